@@ -1,0 +1,75 @@
+//go:build verif
+
+// Contracts for package hashbidimap (comment-only; read by /verif/engine, never compiled into the package).
+
+package hashbidimap
+
+//@ -- forwardMap / inverseMap are embedded by value; m.forwardMap denotes a pointer to the embedded hashmap.Map
+//@ pred Fwd(m, k) := hashmap.Has(m.forwardMap, k)
+//@ pred FwdVal(m, k) := hashmap.Val(m.forwardMap, k)
+//@ pred Bwd(m, v) := hashmap.Has(m.inverseMap, v)
+//@ pred BwdVal(m, v) := hashmap.Val(m.inverseMap, v)
+//@ -- Bij: the two maps are mutual inverses (C10), and have the same number of pairs
+//@ pred Bij(m) := (forall k like keyof(m.forwardMap.m) :: Fwd(m, k) ==> Bwd(m, FwdVal(m, k)) && BwdVal(m, FwdVal(m, k)) == k)
+//@     && (forall v like valof(m.forwardMap.m) :: Bwd(m, v) ==> Fwd(m, BwdVal(m, v)) && FwdVal(m, BwdVal(m, v)) == v)
+//@     && hashmap.Card(m.forwardMap) == hashmap.Card(m.inverseMap)
+//@ pred Inv(m) := m != nil && hashmap.Inv(m.forwardMap) && hashmap.Inv(m.inverseMap) && m.forwardMap.m != m.inverseMap.m && Bij(m)
+
+//@ func New
+//@   modifies nothing
+//@   ensures [C10 C15 C17] fresh(result) && Inv(result) && hashmap.Card(result.forwardMap) == 0
+
+//@ func Map.Put
+//@   requires Inv(m)
+//@   modifies map(m.forwardMap.m), map(m.inverseMap.m)
+//@   ensures [C01 C10 C17] Inv(m) && Fwd(m, key) && FwdVal(m, key) == value && Bwd(m, value) && BwdVal(m, value) == key
+//@   ensures [C01 C10] others: forall k like key :: k != key ==> (Fwd(m, k) <==> old(Fwd(m, k)) && old(FwdVal(m, k)) != value) && (Fwd(m, k) ==> FwdVal(m, k) == old(FwdVal(m, k)))
+
+//@ func Map.Get
+//@   requires Inv(m)
+//@   modifies nothing
+//@   ensures [C01 C10 C17 C18] found == Fwd(m, key) && (found ==> value == FwdVal(m, key)) && (!found ==> value == zero(value))
+//@   ensures [C10] found ==> Bwd(m, value) && BwdVal(m, value) == key
+
+//@ func Map.GetKey
+//@   requires Inv(m)
+//@   modifies nothing
+//@   ensures [C10 C17 C18] found == Bwd(m, value) && (found ==> key == BwdVal(m, value)) && (!found ==> key == zero(key))
+//@   ensures [C10] found ==> Fwd(m, key) && FwdVal(m, key) == value
+
+//@ func Map.Remove
+//@   requires Inv(m)
+//@   modifies map(m.forwardMap.m), map(m.inverseMap.m)
+//@   ensures [C01 C10 C17] Inv(m) && !Fwd(m, key)
+//@   ensures [C01 C10] forall k like key :: k != key ==> (Fwd(m, k) <==> old(Fwd(m, k))) && FwdVal(m, k) == old(FwdVal(m, k))
+//@   ensures [C10] old(Fwd(m, key)) ==> !Bwd(m, old(FwdVal(m, key)))
+//@   ensures [C01 C15] hashmap.Card(m.forwardMap) == old(hashmap.Card(m.forwardMap)) - ite(old(Fwd(m, key)), 1, 0)
+
+//@ func Map.Empty
+//@   requires Inv(m)
+//@   modifies nothing
+//@   ensures [C15 C17 C18] result == (hashmap.Card(m.forwardMap) == 0)
+
+//@ func Map.Size
+//@   requires Inv(m)
+//@   modifies nothing
+//@   ensures [C10 C15 C17 C18] result == hashmap.Card(m.forwardMap) && result == hashmap.Card(m.inverseMap) && result >= 0
+
+//@ func Map.Keys
+//@   requires Inv(m)
+//@   modifies nothing
+//@   ensures [C10 C15 C16 C17 C18] fresh(arr(result)) && len(result) == hashmap.Card(m.forwardMap)
+//@   ensures [C10] forall j :: 0 <= j && j < len(result) ==> Fwd(m, result[j])
+//@   ensures [C10] forall i, j :: 0 <= i && i < j && j < len(result) ==> result[i] != result[j]
+
+//@ func Map.Values
+//@   requires Inv(m)
+//@   modifies nothing
+//@   ensures [C10 C15 C16 C17 C18] fresh(arr(result)) && len(result) == hashmap.Card(m.forwardMap)
+//@   ensures [C10] forall j :: 0 <= j && j < len(result) ==> Bwd(m, result[j])
+//@   ensures [C10] forall i, j :: 0 <= i && i < j && j < len(result) ==> result[i] != result[j]
+
+//@ func Map.Clear
+//@   requires Inv(m)
+//@   modifies map(m.forwardMap.m), map(m.inverseMap.m)
+//@   ensures [C10 C15 C17] Inv(m) && hashmap.Card(m.forwardMap) == 0 && (forall k like keyof(m.forwardMap.m) :: !Fwd(m, k))
